@@ -100,6 +100,26 @@ func c10Scenarios(thorough bool) []*explore.Scenario {
 		sc.Worker, sc.TickBudget, sc.Unclean, sc.FSYield, sc.Bound = true, 2, true, true, 2
 		scs = append(scs, sc)
 	}
+	// RFS: readers (and one writer) on the repository's own file systems, every file-system call a scheduling point
+	// (before it, and after calls that hand bytes to the caller): what the FileSystem documents as safe for
+	// concurrent use - Slice/ReadAt under the shared lock - is exercised in every interleaving on the real thing
+	for _, kind := range []string{"os", "osmmap"} { // (fs.Mem: in C17's differential; its ReadDir order makes traces of Open irreproducible)
+		g := func(k string) explore.Op { return op(explore.Get, k) }
+		progs := map[string][]explore.ThreadProg{
+			// base CH: h0 and h1 live in the head bucket, o0 in its overflow bucket, all records in one segment file
+			"RR": {{g("h0")}, {g("h1")}},
+			"RO": {{g("h0")}, {g("o0")}},
+			"RA": {{op(explore.GetAppend, "h0")}, {op(explore.Has, "o0"), g("h1")}},
+			"RW": {{g("h0"), g("h1")}, {op(explore.Put, "h1")}},
+		}
+		for _, n := range []string{"RR", "RO", "RA", "RW"} {
+			sc := &explore.Scenario{Name: "RFS-" + n + "-" + kind, Base: "CH", Cfg: "BIGC", Threads: progs[n], Bound: 3, WrapFS: kind}
+			if thorough {
+				sc.Bound = -1
+			}
+			scs = append(scs, sc)
+		}
+	}
 	if thorough {
 		// two-call threads for the pairs that involve Close or maintenance
 		for _, m1 := range c10Methods[:12] {
@@ -182,7 +202,12 @@ func c10Check(c *explore.Ctx, base *explore.Base, sc *explore.Scenario) func(r *
 		if !ok {
 			return "not-linearizable", fmt.Sprintf("history is not linearizable: %v", ops)
 		}
-		r.ReopenAfter()
+		if sc.WrapFS != "" && sc.WrapFS != "sim" {
+			// the files are not on simfs: the contents read at quiescence stand in for the reopened ones
+			r.Reopened = r.Final
+		} else {
+			r.ReopenAfter()
+		}
 		if r.ReopenMsg != "" {
 			return "reopen", r.ReopenMsg
 		}
@@ -223,6 +248,7 @@ func init() {
 		Assumptions: []string{"unsynchronised access to in-memory fields of pogreb is only visible to the free-running race-detector complement (sampling); the deciding exhaustive step sees synchronisation operations and file-system calls",
 			"scenarios that do not finish within their time slice report the completed preemption bound"},
 		QuickBudget:   110 * time.Second,
+		ASLimitMB:     1 << 20,
 		ThorBudget:    30 * time.Minute,
 		Run:           runC10,
 		EvalKey:       "executions",
